@@ -803,9 +803,45 @@ class _Field(object):
 
 
 class EqxModuleBase(object):
-    """Marker for equinox.Module as an external base class."""
+    """Marker for equinox.Module as an external base class.  A subclass without its own __init__ gets the
+    dataclass-style constructor equinox would generate from the annotated fields."""
 
     name = "equinox.Module"
+
+    @staticmethod
+    def __axi_init__(interp, obj, args, kwargs):
+        cls = obj.cls
+        fields = []
+        for c in reversed(cls.mro()):
+            for fname in c.annotations:
+                if fname not in fields:
+                    fields.append(fname)
+        attrs = object.__getattribute__(obj, "attrs")
+        if len(args) > len(fields):
+            raise AbstractError("%s() takes %d positional arguments but %d were given" % (cls.name, len(fields), len(args)))
+        given = dict(zip(fields, args))
+        for k, v in kwargs.items():
+            if k not in fields:
+                raise AbstractError("%s() got an unexpected keyword argument %r" % (cls.name, k))
+            if k in given:
+                raise AbstractError("%s() got multiple values for argument %r" % (cls.name, k))
+            given[k] = v
+        for f in fields:
+            if f in given:
+                attrs[f] = given[f]
+                continue
+            d, owner = cls.find(f)
+            if owner is not None and isinstance(d, _Field):
+                if "default" in d.kw:
+                    attrs[f] = d.kw["default"]
+                    continue
+                if "default_factory" in d.kw:
+                    attrs[f] = d.kw["default_factory"]()
+                    continue
+                owner = None
+            if owner is None:
+                raise AbstractError("%s() missing required argument %r" % (cls.name, f))
+            attrs[f] = d
 
 
 # ----------------------------------------------------------------------------- jit / vmap wrappers
